@@ -235,7 +235,11 @@ pub(super) fn update_times_backward(est_times: &mut [EstTime]) {
         // If the node has not been passed, add it
         if !is_est_passed[idx_prev.idx()] {
             // If this is the second node, finish it and the first node and do not add them
-            if est_times[idx_prev.idx()].idx_prev == EST_IDX_NA {
+            // (with several origins the second node is a split node: it then waits in the queue
+            // like any other split node, so that the latest branch becomes its primary link)
+            if est_times[idx_prev.idx()].idx_prev == EST_IDX_NA
+                && est_times[idx_prev.idx()].idx_next_alt == EST_IDX_NA
+            {
                 est_times[idx_prev.idx()].time_sched = est_times[idx_curr.idx()].time_sched;
                 est_times[EST_IDX_NA.idx()].time_sched = est_times[idx_curr.idx()].time_sched;
                 is_est_passed[idx_prev.idx()] = true;
